@@ -1,6 +1,11 @@
 package props
 
-import "fmt"
+import (
+	"fmt"
+	"os"
+
+	"golang.org/x/tools/go/ssa"
+)
 
 func init() { Registry["ROLES"] = dumpRoles }
 
@@ -15,5 +20,22 @@ func dumpRoles(c *Ctx) {
 	}
 	for _, g := range r.GoEntries {
 		fmt.Printf("  go %s in %s at %s\n", g.Common().String(), fname(g.Parent()), c.P.InstrPos(g))
+	}
+}
+
+func init() { Registry["ATOMS"] = dumpAtoms }
+
+func dumpAtoms(c *Ctx) {
+	want := os.Getenv("ATOMS_FN")
+	for _, fn := range c.P.Funcs {
+		if fname(fn) != want && fn.Name() != want {
+			continue
+		}
+		for _, b := range fn.Blocks {
+			if iff, ok := b.Instrs[len(b.Instrs)-1].(*ssa.If); ok {
+				a, t := edgeAtom(iff, 0)
+				fmt.Printf("%s block %d %s: then-edge atom=%q truth=%v  cond=%s\n", fname(fn), b.Index, c.P.InstrPos(iff), a, t, iff.Cond.String())
+			}
+		}
 	}
 }
